@@ -104,9 +104,52 @@ def fn_code_hash(fn: Callable, salt: str = None, environment: bytes = None) -> s
     assert callable(fn), "Must provide a function to hash"
     while hasattr(fn, "__wrapped__"):
         fn = fn.__wrapped__
+    def default_repr(o):
+        """
+        Stable rendering of a default parameter value: values of plain types by value, anything
+        else (whose repr() may embed a memory address) by its type only.
+
+        """
+        if o is None or isinstance(o, (bool, int, float, complex, str, bytes)):
+            return repr(o)
+        if isinstance(o, (tuple, list)):
+            return "{}[{}]".format(
+                type(o).__name__, ", ".join(default_repr(x) for x in o)
+            )
+        if isinstance(o, (frozenset, set)):
+            return "{}[{}]".format(
+                type(o).__name__, ", ".join(sorted(default_repr(x) for x in o))
+            )
+        if isinstance(o, dict):
+            return "dict[{}]".format(
+                ", ".join(
+                    sorted(
+                        default_repr(k) + ": " + default_repr(v) for (k, v) in o.items()
+                    )
+                )
+            )
+        return "<{}.{}>".format(type(o).__module__, type(o).__qualname__)
+
     if hasattr(fn, "__code__"):
         code = getattr(fn, "__code__")  # type: code
         result = hash_if_code_object(code)
+        # Default parameter values are part of the function's behavior but live on the
+        # function object, not in its code object. Functions without defaults hash as before.
+        defaults = getattr(fn, "__defaults__", None)
+        kwdefaults = getattr(fn, "__kwdefaults__", None)
+        if defaults or kwdefaults:
+            sha256 = hashlib.sha256()
+            sha256.update(str(result).encode("utf-8"))
+            sha256.update(
+                json.dumps(
+                    [
+                        [default_repr(x) for x in (defaults or ())],
+                        {k: default_repr(v) for (k, v) in (kwdefaults or {}).items()},
+                    ],
+                    sort_keys=True,
+                ).encode("utf-8")
+            )
+            result = sha256.hexdigest()[0:16]
         return result
     else:
         # If we can't get the code for the function, then return the name of the function
